@@ -466,7 +466,32 @@ PROPS['C18'] = dict(
     not_decided=['end-of-series psi selection of the returned value', 'C engine unbounded', 'kbest_matches histories'],
 )
 
+def _nw_bridges(run):
+    """the step functions of the alignment recurrence are monotone (hypothesis `Mono` of specs/lean/NW.lean)"""
+    import z3
+    from dvc.state import Obligation, CannotBind
+    from dvc.vals import Val, vlt, vadd, vlit, order_axioms, arith_axioms
+    from dvc import leancheck
+    st = leancheck.ensure(['NW.lean'])
+    run.evidence_extra['lean'] = st
+    if not all(v['accepted'] for v in st.values()):
+        raise CannotBind('a Lean lemma file was rejected: %s' % st)
+    x, y, g, s = z3.Consts('x y g s', Val)
+    ninf = z3.Const('vninf', Val)
+    le = lambda a, b: z3.Not(vlt(b, a))      # noqa: E731
+    fin = [x != ninf, y != ninf]
+    return [
+        Obligation('bridge::gap-step-monotone', 'bridge', [le(x, y)] + fin, le(vadd(vadd(g, x), vlit(0)), vadd(vadd(g, y), vlit(0))),
+                   'lemma:C17-bridge', props=('C17',), axioms=order_axioms() + arith_axioms(),
+                   note='x <= y gives gap + x + 0 <= gap + y + 0 (rounded addition is monotone): NW.Mono.monoL / monoU'),
+        Obligation('bridge::substitution-step-monotone', 'bridge', [le(x, y)] + fin, le(vadd(s, x), vadd(s, y)),
+                   'lemma:C17-bridge', props=('C17',), axioms=order_axioms() + arith_axioms(),
+                   note='x <= y gives sub + x <= sub + y: NW.Mono.monoD'),
+    ]
+
+
 PROPS['C17'] = dict(
+    extra_obligations=_nw_bridges,
     modules=['contracts.nw_py'],
     contracts=['dp.dp'],
     lemmas=[],
@@ -476,12 +501,19 @@ PROPS['C17'] = dict(
         'max/min orientation) x traceback order: value == exhaustive maximum over all global alignments; best_alignment gives '
         'equal-length gapped sequences that reduce to the inputs, no gap/gap column, score == value', 300, 0)(run)},
     level='proof',
-    level_text='dp.dp as needleman_wunsch calls it is proved to fill the score matrix with the alignment-cost recurrence NWS and '
-               'the traceback matrix with exactly the arrows of the minimising predecessors.',
-    level_note='work in progress',
-    trusted_base=[PY_A1, A3_NUMPY, A7],
-    assumptions=[PY_A1, A3_NUMPY, A7],
-    not_decided=[],
+    level_text='dp.dp as needleman_wunsch calls it (default substitution function executed; an arbitrary callback as an '
+               'uninterpreted function with a constant gap cost) is proved to fill the score matrix with the alignment-cost '
+               'recurrence NWS (border = number of leading gaps times the gap cost, taken from the property statement) and the '
+               'traceback matrix with exactly the arrows of the minimising predecessors. That NWS(r, c) is the least total cost '
+               'over all edit scripts is the Lean lemma NW.S_isLeast (specs/lean/NW.lean) with z3 bridge obligations for its '
+               'monotonicity hypothesis. best_alignment and the negating wrapper needleman_wunsch are bounded only.',
+    level_note='NumPy string cells are modelled as character sets (only `ch in cell` is observable). Trusted: correspondence '
+               'between the z3 text of NWS and the Lean Params structure (by inspection). Known findings: custom gap cost (border), '
+               'empty second sequence.',
+    trusted_base=[PY_A1, A3_NUMPY, A7, 'A4: Lean kernel + Mathlib'],
+    assumptions=[PY_A1, A3_NUMPY, A7, 'A4: Lean kernel + Mathlib'],
+    not_decided=['contract for alignment.best_alignment (traceback over the arrow matrix, list building) - bounded only',
+                 'windows / max_dist / max_step / psi of dp.dp other than the values needleman_wunsch passes by default'],
 )
 
 PROPS['C12'] = dict(
